@@ -55,6 +55,9 @@ func genUnary(r *gen.R, op string, validOnly bool) (mon.OpReq, Expect, bool) {
 	dts := c10DTs(op)
 	dt := dts[r.Intn(len(dts))]
 	shape := r.Shape(0, 4, 5, 80)
+	if r.Chance(0.0005) { // a large operand: code paths that switch on the element count
+		shape = r.PickShape([]int{1, 4, 16, 17}, []int{3, 7, 64}, []int{1025}, []int{70003}, []int{257, 257})
+	}
 	mode := r.PickInt(gen.FillMixed, gen.FillMixed, gen.FillSpecial, gen.FillSmall)
 	if validOnly {
 		mode = gen.FillSmall
